@@ -71,6 +71,9 @@ fn classify(es: &[SEntry]) -> (bool, Vec<&'static str>) {
             labels.push("varint>=5bytes");
             interesting = true;
         }
+        if e.id + u64::from(e.run.max(1)) == crate::model::entries::ID_END {
+            labels.push("ends-on-last-tile-id");
+        }
     }
     labels.sort_unstable();
     labels.dedup();
@@ -298,7 +301,7 @@ pub fn run(ctx: &Ctx) {
     let wide = vec![ListCase { ds: (0..70_000u32).map(|i| EDelta { gap: u64::from(i % 3 == 0), run: 1 + (i % 2), len: 1 + (i % 300), omode: [0u8, 0, 1][(i % 3) as usize], off: u64::from(i) * 1000 }).collect(), codec: 1 + (ctx.seed % 4) as u8, asyncw: ctx.seed % 2 == 1, params: codec::Params::default() }];
     crate::engine::run_list(ctx, "list-over-65536-entries", &wide, check_case);
     run_proptest(ctx, "random-big-lists", PtCfg { lanes: ctx.lanes, cases: ctx.tier.pick(2, 12), max_shrink: 64 }, || big_strategy(ctx.tier.pick(40_000, 100_000)), check_case);
-    for c in ["offset-elided", "offset-explicit-after-0", "offset-zero-after-0", "leaf-pointer", "varint>=5bytes", "codec-brotli", "codec-gzip", "codec-zstd", "writer-async"] {
+    for c in ["offset-elided", "offset-explicit-after-0", "offset-zero-after-0", "leaf-pointer", "varint>=5bytes", "ends-on-last-tile-id", "codec-brotli", "codec-gzip", "codec-zstd", "writer-async"] {
         ctx.rec.floor(c, 20);
     }
 }
